@@ -161,7 +161,7 @@ class Rig(object):
     def fresh(self, irc=None):
         S = self.S; drivers = self.drivers
         S.SocketDriver._instances[:] = []
-        drivers._drivers.clear(); drivers._newDrivers[:] = []; drivers._deadDrivers.clear()
+        drivers._drivers.clear(); drivers._newDrivers.clear(); drivers._deadDrivers.clear()
         self.conf.supybot.drivers.poll._callbacks = []
         stub = irc or StubIrc(self.ircmsgs, self)
         self.socks = []
@@ -520,7 +520,7 @@ class MultiRig(object):
         self.rig = rig
         S = rig.S; drivers = rig.drivers
         S.SocketDriver._instances[:] = []
-        drivers._drivers.clear(); drivers._newDrivers[:] = []; drivers._deadDrivers.clear()
+        drivers._drivers.clear(); drivers._newDrivers.clear(); drivers._deadDrivers.clear()
         rig.conf.supybot.drivers.poll._callbacks = []
         rig.socks = []
         self.ds = []; self.stubs = []; self.sts = []
